@@ -18,3 +18,9 @@ Definition C10_complete_statement : Prop :=
   forall evs, let s := drun true evs in
     published s <> None -> creating s = [] /\ waitq s = [] /\ get_waiting s = [] /\
     length (handled s) = length (arrived evs).
+
+(* ... and every caller of get() has been answered (with that object, by C10_statement) once the entry is published *)
+Definition getters (evs : list dev_ev) : list nat := flat_map (fun e => match e with UserGet g => [g] | _ => [] end) evs.
+Definition C10_getters_statement : Prop :=
+  forall evs, let s := drun true evs in
+    published s <> None -> forall g, In g (getters evs) -> In g (map fst (got s)).
